@@ -36,8 +36,8 @@ import (
 // where p is the literal's guard; p must be an indexed prefix. Any other literal of a struct
 // type of package search with a string field inside those methods is undecided.
 // Instances: one per indexed prefix of TokenForTag, one per query-side literal. An indexed
-// prefix for which a Compile method has no arm is reported as info (Tagged has no `@` arm: a
-// key-only token cannot answer a key-value query through the index).
+// prefix for which a Compile method has no arm is a violation: the tags are searchable but the query
+// returns nothing (Tagged used to have no `@` arm; it now searches by the key token and filters by value).
 //
 // Not covered: tokens built elsewhere (spatial tokens are TOKEN-TOTALITY), the semantics of
 // Value.String(), callers that bypass TokenForTag.
@@ -326,8 +326,8 @@ func runTokenFormat(c *Ctx) []Obligation {
 		}
 		sort.Strings(missing)
 		for _, pfx := range missing {
-			out = append(out, Obligation{Key: fmt.Sprintf("%s#no-arm-%s", qname, gPrefixName(pfx)), Pos: c.Position(qfd.Pos()), Status: Info,
-				Detail: fmt.Sprintf("%s has no token arm for the indexed key prefix %q (such queries compile to whatever the fall-through returns)", qname, pfx)})
+			out = append(out, Obligation{Key: fmt.Sprintf("%s#no-arm-%s", qname, gPrefixName(pfx)), Pos: c.Position(qfd.Pos()), Status: Violation,
+				Detail: fmt.Sprintf("%s has no token arm for the indexed key prefix %q: tags with that prefix are searchable (TokenForTag indexes them) but such a query compiles to whatever the fall-through returns — the empty iterator — while its Matches accepts the tagged features", qname, pfx)})
 		}
 	}
 	return out
